@@ -86,8 +86,8 @@ Definition check_dec (name c k iv : bytes) (dec : ires) : bool :=
   let m := decrypt P name c k iv in
   if is_aead name then
     match m with
-    | COk _ => match dec with IOk _ | IPanic => true | _ => false end    (* authentication is not modelled *)
-    | _ => cres_eqb m dec                                               (* incl. CPanic for fewer than 16 bytes *)
+    | COk _ => match dec with IOk _ | IErr 4 => true | _ => false end    (* authentication is not modelled *)
+    | _ => cres_eqb m dec                                               (* incl. "Invalid input" for fewer than 16 bytes *)
     end
   else cres_eqb m dec.
 
@@ -151,7 +151,8 @@ Definition oracle (c : case) : bool :=
           | None => is_err enc
           | Some _ =>
               if (bytes_eqb mode mode_aes128 && Nat.eqb (length k) 16)
-                 || (bytes_eqb mode mode_pfx && Nat.eqb (length k) 32)
+                 || (bytes_eqb mode mode_pfx && Nat.eqb (length k) 32
+                     && negb (bytes_eqb (firstn 16 k) (skipn 16 k)))      (* equal halves are refused *)
               then match enc, dec with
                    | IOk _, IOk d => same_addr d ip'
                    | _, _ => false
